@@ -17,7 +17,15 @@ TEXTS = [
     "x = 1\ny = 2\nz = x + y\nprint(z)\n",
     "\U0001F600 café 中文\nline2 \U0001F680\nend",
 ]
+TEXTS += ["select 1 from t where a = 2\n", "select 1 from t where a = 2\n", TEXTS[0]]
 N_SOURCES = len(TEXTS)
+# 0-2: MemoryTextSource, distinct uris; 3/4: TextSource with one uri and different source_type;
+# 5: TextSource with the uri and type of source 0 (another class => another source)
+SOURCE_DESCR = {
+    3: ("TextSource", "queries/report.sql", "sql"),
+    4: ("TextSource", "queries/report.sql", "jinja"),
+    5: ("TextSource", "mem://verif/0", "<memory>"),
+}
 
 
 def point_for(text: str, idx: int) -> tuple[int, int, int]:
@@ -33,17 +41,18 @@ _SRC_CACHE: dict[int, Any] = {}
 
 
 def source(i: int) -> Any:
-    from pyoak.origin import MemoryTextSource
-
     if i not in _SRC_CACHE:
-        _SRC_CACHE[i] = MemoryTextSource(TEXTS[i], source_uri=f"mem://verif/{i}")
+        _SRC_CACHE[i] = fresh_source(i)
     return _SRC_CACHE[i]
 
 
 def fresh_source(i: int) -> Any:
     """an equal but distinct source object (same uri / type / text)"""
-    from pyoak.origin import MemoryTextSource
+    from pyoak.origin import MemoryTextSource, TextSource
 
+    if i in SOURCE_DESCR:
+        _, uri, typ = SOURCE_DESCR[i]
+        return TextSource(uri, typ, _raw=TEXTS[i])
     return MemoryTextSource(TEXTS[i], source_uri=f"mem://verif/{i}")
 
 
@@ -127,6 +136,8 @@ def canon_spec(spec: tuple) -> tuple:
 
 
 def _canon_src_idx(i: int) -> tuple:
+    if i in SOURCE_DESCR:
+        return SOURCE_DESCR[i]
     return ("MemoryTextSource", f"mem://verif/{i}", "<memory>")
 
 
